@@ -85,7 +85,7 @@ theorem resolveAuthBlock_nil (sha : ID → Bytes) (valid : Bool) (s : V1State) :
 
 theorem resolveAuthBlock_spec (sha : ID → Bytes) (valid : Bool) (s : V1State) (block : List Event) (hne : block ≠ []) :
     ∃ c0 rest w s1, sortV1 sha block = c0 :: rest ∧ AuthBlockRun valid (s.addAuthEvent c0) c0 rest w s1 ∧
-      resolveAuthBlock sha valid s block = (some w, s1.removeAuthEvent w.type (w.stateKey.getD [])) := by
+      resolveAuthBlock sha valid s block = (some w, afterBlock s s1 c0 w) := by
   unfold resolveAuthBlock
   cases hs : sortV1 sha block with
   | nil => exact absurd hs (sortV1_ne_nil sha hne)
@@ -119,10 +119,10 @@ theorem phase_foldl_spec (sha : ID → Bytes) (valid : Bool) : ∀ (blocks : Lis
       rw [this, he]
     | cons b bs =>
       obtain ⟨c0, rest, w, s1, hsort, hrun, hres⟩ := resolveAuthBlock_spec sha valid s (b :: bs) (by simp)
-      have hstep : phaseStep sha valid (s, acc) (b :: bs) = (s1.removeAuthEvent w.type (w.stateKey.getD []), acc ++ [w]) := by
+      have hstep : phaseStep sha valid (s, acc) (b :: bs) = (afterBlock s s1 c0 w, acc ++ [w]) := by
         unfold phaseStep
         simp only [List.isEmpty_cons, Bool.false_eq_true, if_false, hres]
-      obtain ⟨s', ws, hr, he⟩ := phase_foldl_spec sha valid blocks (s1.removeAuthEvent w.type (w.stateKey.getD [])) (acc ++ [w])
+      obtain ⟨s', ws, hr, he⟩ := phase_foldl_spec sha valid blocks (afterBlock s s1 c0 w) (acc ++ [w])
       refine ⟨s', w :: ws, PhaseRun.block (hsort ▸ sortV1_isV1Order sha (b :: bs)) hrun hr, ?_⟩
       rw [hstep, he]; simp
 
